@@ -780,6 +780,56 @@ func cookieEscapes(r *vf.Run, maxLen int) {
 	rec(nil, 6)
 }
 
+// pathAssembly: generated clients build the request path with uri.AddPathParts(base, parts...),
+// the parts being static text and already-escaped path arguments.  For every base URL path of a
+// small set (plain, with a needless escape, with escapes net/url keeps or drops from RawPath, with
+// an escaped slash) and every sequence of <= 3 parts, the escaped path of the result must be the
+// escaped base followed by the parts, byte for byte: an escape of a part must never be undone.
+func pathAssembly(r *vf.Run) {
+	bases := []string{"http://h", "http://h/", "http://h/v1", "http://h/v1/", "http://h/a%20b", "http://h/a%2Fb", "http://h/%C3%A9", "http://h/x%41", "http://h/a,b", "http://h/a%21b"}
+	parts := []string{"/p/", "/", "a", "a%2Fb", "a%20b", "x,y", "%25", "%C3%A9", "a-b.c_d~e", "/end"}
+	var n int64
+	var seqs [][]string
+	for _, a := range parts {
+		seqs = append(seqs, []string{a})
+		for _, b := range parts {
+			seqs = append(seqs, []string{a, b})
+			for _, c := range parts {
+				seqs = append(seqs, []string{a, b, c})
+			}
+		}
+	}
+	for _, b := range bases {
+		for _, seq := range seqs {
+			u, err := url.Parse(b)
+			if err != nil {
+				vf.Fatal("base %q: %v", b, err)
+			}
+			want := u.EscapedPath() + strings.Join(seq, "")
+			var pan any
+			func() {
+				defer func() { pan = recover() }()
+				uri.AddPathParts(u, seq...)
+			}()
+			n++
+			got := u.EscapedPath()
+			dec, derr := url.PathUnescape(want)
+			switch {
+			case pan != nil:
+				r.Violation(map[string]string{"class": "path-assembly/panic"}, len(b)+len(seq), map[string]any{"base": b, "parts": seq, "panic": fmt.Sprint(pan)})
+			case got != want:
+				r.Violation(map[string]string{"class": "path-assembly/escaped-path-differs-from-base-plus-parts", "base_has_raw_path": fmt.Sprint(strings.Contains(b, "%"))}, len(b)+10*len(seq),
+					map[string]any{"base": b, "parts": seq, "escaped_path": got, "expected": want, "url_path": u.Path, "url_raw_path": u.RawPath})
+			case derr == nil && u.Path != dec:
+				r.Violation(map[string]string{"class": "path-assembly/decoded-path-differs"}, len(b)+10*len(seq), map[string]any{"base": b, "parts": seq, "url_path": u.Path, "expected": dec})
+			}
+		}
+	}
+	r.Eval(n)
+	r.NontrivialN(n)
+	r.Set("path_assemblies", n)
+}
+
 func refUnescape(s string) (string, bool) {
 	var b strings.Builder
 	for i := 0; i < len(s); i++ {
@@ -1002,6 +1052,7 @@ func main() {
 		cookieLen = 3
 	}
 	cookieEscapes(r, cookieLen)
+	pathAssembly(r)
 
 	r.Sample(kase{Cell: cell{"path", "matrix", true, "object"}, Value: value{Fields: []uri.Field{{Name: "a", Value: "x y"}, {Name: "b", Value: "é"}}}, Wire: ";a=x%20y;b=%C3%A9", Expected: ";a=x y;b=é"})
 	r.Sample(kase{Cell: cell{"query", "pipeDelimited", false, "array"}, Value: value{Items: []string{"a", "b|c"}}, EncErr: "(must be refused or rejected: '|' is the active delimiter)"})
